@@ -35,6 +35,7 @@ type Case struct {
 	Hdr   int           `json:"hdr,omitempty"`
 	Recs  []int         `json:"recs,omitempty"` // record ids into the record alphabet
 	Big   bool          `json:"big,omitempty"`  // record alphabet of the thorough tier
+	N     int           `json:"n,omitempty"`    // "ladder": a file of N records (ids follow a fixed pattern)
 }
 
 type checker struct{ c *core.Ctx }
@@ -514,14 +515,49 @@ func run(c *core.Ctx) {
 			}
 		}
 	}
+
+	// (c) size ladder: record counts around every power of two (where buffer, chunk and width
+	// thresholds live): 2^k-1, 2^k, 2^k+1 and one count in between
+	maxK := 15
+	if big {
+		maxK = 17
+	}
+	var ladder []int
+	for kk := 2; kk <= maxK; kk++ {
+		ladder = append(ladder, 1<<kk-1, 1<<kk, 1<<kk+1, 1<<kk+1<<(kk-1)+3)
+	}
+	c.Bound("c.size_ladder_max_records", ladder[len(ladder)-1])
+	for _, n := range ladder {
+		if c.Mine(base) {
+			k.ladderCase(0, n, big)
+		}
+		base++
+	}
 }
 
 // ---------------------------------------------------------------------------------------------
 // scope (b): byte strings
 // ---------------------------------------------------------------------------------------------
 
+// ladderIDs is the record pattern of a size-ladder file: consecutive records differ, and the pattern
+// does not repeat with a power-of-two period (so a chunk boundary cannot hide behind equal records).
+func ladderIDs(n, alphabet int) []int {
+	ids := make([]int, n)
+	for i := range ids {
+		ids[i] = (i*7 + i/alphabet + 3) % alphabet
+	}
+	return ids
+}
+
+func (k checker) ladderCase(h, n int, big bool) {
+	k.bytesCaseAs(Case{Kind: "ladder", Hdr: h, N: n, Big: big}, h, ladderIDs(n, len(recordAlphabet(big))), big)
+}
+
 func (k checker) bytesCase(h int, ids []int, big bool) {
-	cs := Case{Kind: "bytes", Hdr: h, Recs: ids, Big: big}
+	k.bytesCaseAs(Case{Kind: "bytes", Hdr: h, Recs: ids, Big: big}, h, ids, big)
+}
+
+func (k checker) bytesCaseAs(cs Case, h int, ids []int, big bool) {
 	alpha := recordAlphabet(big)
 	rs := make([]rec, len(ids))
 	for i, id := range ids {
@@ -677,6 +713,8 @@ func replay(c *core.Ctx) {
 		k.meshCase(*cs.Spec, cs.NMode)
 	case "bytes":
 		k.bytesCase(cs.Hdr, cs.Recs, cs.Big)
+	case "ladder":
+		k.ladderCase(cs.Hdr, cs.N, cs.Big)
 	default:
 		c.HarnessError("unknown case kind %q", cs.Kind)
 	}
